@@ -885,6 +885,16 @@ vp('C13', 'fire', 'seeded/C13-large-correction-through-ecef/patch.diff',
 vp('C13', 'silent', 'refactors/T01-C13-altitude-restored.diff',
    'the same large-displacement arm with the altitude of the linear formulas written back')
 
+vp('C02', 'fire', 'seeded/C02-growth-by-chunk-length/patch.diff', 'round-8 seed C02: buffers grown by the chunk length')
+vp('C03', 'fire', 'seeded/C03-gravitation-slope-from-earth-rate/patch.diff', 'round-8 seed C03: gravitation slope over an interval from the Earth rate alone')
+vp('C05', 'fire', 'seeded/C05-sea-level-radii-in-correction/patch.diff', 'round-8 seed C05: correct_pva converts metres with sea-level radii')
+vp('C08', 'fire', 'seeded/C08-requested-step-in-feedback/patch.diff', 'round-8 seed C08: feedback filter discretises over the requested step')
+vp('C12', 'fire', 'seeded/C12-increment-window-by-position/patch.diff', 'round-8 seed C12: increment window addressed by trajectory row positions')
+vp('C14', 'fire', 'seeded/C14-estimate-dtype-from-sd/patch.diff', 'round-8 seed C14: estimates allocated with the dtype of a user-supplied sd')
+vp('C16', 'fire', 'seeded/C16-plumb-line-term-in-one-place/patch.diff', 'round-8 seed C16: plumb-line term added in one of the gravity routines only')
+vp('C18', 'fire', 'seeded/C18-index-blind-interpolation/patch.diff', 'round-8 seed C18: resampling interpolates by position, not over the index')
+vp('C19', 'fire', 'seeded/C19-posterior-written-into-x/patch.diff', 'round-8 seed C19: kalman.correct writes the posterior into its argument x')
+
 
 # ---------------------------------------------------------------- refactorings (fifth session)
 # Behaviour-preserving refactorings written by sub-agents that saw nothing of /verif (each comes
